@@ -59,6 +59,26 @@ def check_program(node, rec=None):
                 indexed += 1
         except Violation as v:
             raise Violation(v.sig, f'program: {progs.show(sub)}\n{v.detail}')
+    # a length that is offered equals the number of examples a REAL pass yields - also after the abandoned pass above
+    # (state an aborted iteration leaves behind), for every sized stage, indexable or not
+    for path, sub in sorted(progcheck.subnodes(node), key=lambda t: len(t[0])):
+        m = ev(sub)
+        if not m.sized or m.has_raise or m.n > 300:
+            continue
+        d = env.nodes[path]
+        try:
+            ln = len(d)
+        except observe.PASS_THROUGH:
+            raise
+        except BaseException:  # noqa: a stage that offers no length although the model has one is C01/C02's other part
+            continue
+        for rnd in (1, 2):
+            got, exc, exhausted = observe.take(lambda: d, m.n + 50)
+            if exc is None and len(got) != ln:
+                raise Violation(f'len-vs-pass|{sub["op"]}',
+                                f'program: {progs.show(sub)}\nlen(ds) == {ln} but pass {rnd} yielded {len(got)} examples'
+                                f' (history of the object: pre-step {pre} of 0 = nothing, 1 = one complete pass, '
+                                f'2 = an abandoned pass + len + keys)')
     # "ds[i] equals the i-th ITERATED example" also when the indexing came first and in no particular order: on a
     # second, fresh build every stage is read by index in a scattered order (a pure function of the program), then
     # iterated
